@@ -201,6 +201,38 @@ func buildFacts(fn *ssa.Function) *factInfo {
 					work = append(work, phi)
 					break
 				}
+				// an operand whose nil-ness is known where it is built (a fresh error, a boxed value)
+				if nilable(phi.Type()) && fx.valueFact(nil, e) != 0 {
+					work = append(work, phi)
+					break
+				}
+			}
+		}
+	}
+	// a merge of such merges carries the same knowledge one step further
+	for changed := true; changed; {
+		changed = false
+		inWork := map[ssa.Value]bool{}
+		for _, p := range work {
+			inWork[p] = true
+		}
+		for _, b := range fn.Blocks {
+			for _, in := range b.Instrs {
+				phi, ok := in.(*ssa.Phi)
+				if !ok {
+					break
+				}
+				if inWork[phi] || (!isBoolType(phi.Type()) && !nilable(phi.Type())) {
+					continue
+				}
+				for _, e := range phi.Edges {
+					if inWork[e] {
+						work = append(work, phi)
+						inWork[phi] = true
+						changed = true
+						break
+					}
+				}
 			}
 		}
 	}
@@ -647,7 +679,6 @@ func (fx *factInfo) enter(facts string, from *ssa.BasicBlock, si int, succ *ssa.
 	}
 	return renderFacts(m)
 }
-
 
 type learntFact struct {
 	v   ssa.Value
